@@ -111,12 +111,30 @@ NEEDS.update({
  "C19c-2": "the first key of the top node is the only one whose layer is below the recorded height (first loop iteration skips the layer check)",
  "C09c-1": "", "C09c-2": "",
 })
+
+NEEDS.update({
+ "C09c-1": "int/int64 keys at least 2^63 apart under the default order (compare by subtraction): persisted nodes hold keys out of order",
+ "C09c-2": "an unflushed tree of height >= 1, Clone then Clone of that clone, a mutation below the root on one and MakeRoot on the other (ToShared marks its copies shared while they stay dirty)",
+ "C04d-1": "a MakeRoot or LoadMast right before inserting the first key above the current height while the size already allows another level (grow check looks at the root captured before savePathForRoot copied it)",
+ "C04d-2": "a Delete landing exactly on size == bf^h while the height is limited by the size (size decremented after the shrink loop)",
+ "C08d-1": "shared NodeCache, a persisted version, replacing the value of an existing key from a tree loaded from it, re-reading the old root through the cache (value written into the cached node before it is copied)",
+ "C08d-2": "file backend, an I/O fault or crash during the write of a node of at most 4096 bytes, then a Store of the same name (fast path writes under the final name)",
+ "C10d-1": "a second SeekIter started while the first is still running, e.g. from inside its callback (path buffer returned to a sync.Pool too early)",
+ "C10d-2": "a user-configured order returning other magnitudes than -1/0/1, used by Cursor.Ceil (switch cmp { case 0 …; case -1 … })",
+ "C11d-1": "file backend, two goroutine-owned trees persisting an identical node at the same time (temp file named path+'.tmp')",
+ "C11d-2": "a node cache shared by trees on different goroutines under eviction pressure: Contains() then Get() with an eviction in between (nil interface conversion panic)",
+ "C17d-1": "a write fault during a node write followed by a re-store of the same node through the same Persist value in the same process (name cache claims the node before it is on disk)",
+ "C17d-2": "a context that is live when Store starts and cancelled before the last 64 KiB chunk (shadowed err: truncated temp file still renamed into place)",
+ "C18d-1": "a failing or short write between the creation of the temp file and its close (:= shadows the write error)",
+ "C18d-2": "S3: a PutObject failure followed by a retry on the same Persist (names remembered as uploaded before the upload succeeded)",
+ "C06d-1": "", "C06d-2": "",
+})
 V = os.path.dirname(os.path.dirname(os.path.abspath(__file__)))
 def first_lines(path):
     try: return " ".join(l.strip() for l in open(path).read().splitlines() if l.strip())[:600]
     except Exception: return ""
 out = []
-ROUNDS = [("/tmp/seedres", "/tmp/seedres1b", ""), ("/tmp/seedres2", "/tmp/seedres2b", "b"), ("/tmp/seedres3", "/tmp/seedres3b", "c")]
+ROUNDS = [("/tmp/seedres", "/tmp/seedres1b", ""), ("/tmp/seedres2", "/tmp/seedres2b", "b"), ("/tmp/seedres3", "/tmp/seedres3b", "c"), ("/tmp/seedres4", "/tmp/seedres4b", "d")]
 files = []
 for base, later, suffix in ROUNDS:
     names = set(os.path.basename(x) for x in glob.glob(base + "/C??-?.json")) | set(os.path.basename(x) for x in glob.glob(later + "/C??-?.json"))
